@@ -47,6 +47,21 @@ fn main() {
 		}
 		i += 1;
 	}
+	if id.as_deref() == Some("jobtrace") {
+		// debug aid: vcheck jobtrace --replay <file with a JobCase json>
+		let text = std::fs::read_to_string(replay.expect("--replay FILE")).unwrap();
+		let case: vh::jobdrive::JobCase = serde_json::from_str(&text).unwrap();
+		let trace = vh::jobdrive::run_case(&case);
+		println!("{}", vh::jobgen::fmt_log(&trace));
+		for s in &trace.steps {
+			println!("step {:?}", s);
+		}
+		for m in &trace.markers {
+			println!("marker {:?}", m);
+		}
+		println!("task_end {:?} dead {:?}", trace.task_end, trace.is_dead_at_end);
+		return;
+	}
 	let Some(id) = id else {
 		eprintln!("usage: vcheck <ID> [--tier quick|thorough] [--seed N] [--replay FILE]");
 		std::process::exit(2);
